@@ -335,7 +335,35 @@ def r6(chk, ctx):
         chk.ob("C18.R6", "a name is registered exactly when it was not already known", ok, "", key="StateNode.check | registration not in the else-arm of the duplicate test", where=sl.line(r), message="")
 
 
+def r7(chk, ctx):
+    """the semantic walk descends into every member; the engine resolves a nested state in its innermost States object"""
+    sl = ctx.mod("statelint")
+    f = sl.func("StateNode.check")
+    loops = [l for l in body_nodes(f) if isinstance(l, ast.For) and norm(l.iter) == "node.items()" and any(isinstance(c, ast.Call) and callname(c) == "self.check" for c in ast.walk(l))]
+    chk.ob("C18.R7", "StateNode.check recurses over node.items()", len(loops) == 1, "", key="StateNode.check | recursion loop", where=f.where(), message="")
+    if loops:
+        lp = loops[0]
+        keyvar = lp.target.elts[0].id if isinstance(lp.target, ast.Tuple) else None
+        filt = [i for i in ast.walk(lp) if isinstance(i, (ast.If, ast.IfExp)) and any(isinstance(x, ast.Name) and x.id == keyvar for x in ast.walk(i.test))]
+        skips = [x for x in ast.walk(lp) if isinstance(x, ast.Continue)]
+        chk.ob("C18.R7", "no member is skipped by its NAME", not filt and not skips, [norm(i.test) for i in filt],
+               key="StateNode.check | members are skipped by name (%s)" % [norm(i.test) for i in filt], where=sl.line(filt[0]) if filt else f.where(),
+               message="the same loop walks the States object, whose member names are state names chosen by the user: a state called Result / Parameters / ... would never be checked")
+    se = ctx.mod("state_engine")
+    fs = se.func("find_state")
+    sp_ = [x for x in name_defs(fs, "states_path") if isinstance(x, ast.Assign)]
+    ok = len(sp_) == 1 and norm(sp_[0].value) == "path[0].rpartition(\"['States']\")[0]".replace('\\"', '"')
+    ok = ok or (len(sp_) == 1 and "rpartition(" in norm(sp_[0].value) and "['States']" in norm(sp_[0].value) and norm(sp_[0].value).endswith("[0]"))
+    chk.ob("C18.R7", "find_state takes the owning States object at the LAST ['States'] segment of the match", ok, norm(sp_[0].value) if sp_ else "",
+           key="find_state | owning States object derived by `%s`" % (norm(sp_[0].value) if sp_ else "?"), where=fs.where(),
+           message="with two or more levels of Parallel/Map nesting the first segment is an outer machine: a validator-clean machine fails as 'non-existent state ... Illegal State Machine'")
+    txt = [norm(s) for s in ast.walk(fs.node) if isinstance(s, ast.stmt)]
+    ok = "state = current_state_machine.get(current_state)" in txt and "branch = apply_jsonpath(current_state_machine, states_path)" in txt and "current_state_machine = branch['States']" in txt
+    chk.ob("C18.R7", "find_state: direct lookup first, then the recursive-descent lookup", ok, "", key="find_state | lookup steps", where=fs.where(), message="")
+
+
 def run(chk, ctx):
+    r7(chk, ctx)
     r6(chk, ctx)
     r1(chk, ctx)
     r2(chk, ctx)
